@@ -474,6 +474,22 @@ def step (p : Peer) (e : Ev) : Peer :=
 
 def run (p : Peer) (evs : List Ev) : Peer := evs.foldl step p
 
+/-- what can make the speaker hand routes to an established neighbour -/
+inductive Trigger where
+  | routeChange      -- a route learned from another neighbour / propagateUpdate
+  | rtcMembership    -- the neighbour's RT membership changed (processRTCMembership)
+  | routeRefresh     -- ROUTE-REFRESH from the neighbour (handleRouteRefresh)
+  | softResetOut     -- soft reset out (operator)
+  | localAdd         -- a locally injected path (AddPath)
+  | localDelete      -- a locally deleted path (DeletePath)
+  | vrfPath          -- a path added to a VRF
+  | rtcWithdraw      -- the neighbour withdrew an RT membership (withdrawals of what it brought)
+deriving Repr, DecidableEq, Inhabited
+
+/-- every one of these goes through `needToAdvertise` (propagateUpdateToNeighbors, processOutgoingPaths,
+sendSecondaryRoutes, handleRouteRefresh, softResetOut): established and not LocalRestarting -/
+def sendsOn (p : Peer) (_ : Trigger) : Bool := needToAdvertise p
+
 /-- `postFilterpath`, LLGR clause: a path carrying LLGR_STALE is turned into a withdrawal for a
 neighbour for which `isLLGREnabledFamily(family)` is false -/
 def exportWithdraws (peerLLGR : Bool) (pathLLGRStale : Bool) : Bool := !peerLLGR && pathLLGRStale
